@@ -6,6 +6,8 @@ package zkfac
 
 //@ func (*Proof).Verify
 //@   nopanic[C05]
+//@   modifies nothing
+//@   allocates
 //@   requires public.N != nil && pedok(public.Aux) && hash != nil && hash.h != nil
 
 //@ func challenge
